@@ -830,6 +830,69 @@ def run_program(case: dict, sizes, max_inst: int, extra_feeds=()) -> dict:
     }
 
 
+# ----------------------------------------------------------------------------- Scan programs
+SCAN_CASES = [
+    {"state": [{"e": "f32", "s": []}], "scans": [{"e": "f32", "s": [4, 3]}]},
+    {"state": [{"e": "f32", "s": [3]}], "scans": [{"e": "f32", "s": [4, 3]}]},
+    {"state": [{"e": "f32", "s": [2, 3]}], "scans": [{"e": "f32", "s": ["N", 3]}]},
+    {"state": [{"e": "f32", "s": [3]}], "scans": [{"e": "f32", "s": [5, 2, 3]}]},
+    {"state": [{"e": "i64", "s": ["K"]}], "scans": [{"e": "i64", "s": [4]}]},
+    {"state": [{"e": "f32", "s": [3]}, {"e": "i64", "s": []}], "scans": [{"e": "f32", "s": ["N", 2]}, {"e": "i64", "s": ["N", 3, 2]}]},
+    {"state": [], "scans": [{"e": "f32", "s": [3, 2]}]},
+]
+
+
+def run_scan(case: dict, rng, sizes, max_inst: int, extra_feeds=()) -> dict:
+    """Scan over the given state / scan-input types. The body returns its state arguments unchanged and
+    exposes every one of its arguments (and a value computed from each scan slice) as scan outputs, so
+    the types the constructor prescribes for the body's arguments are compared with the runtime."""
+    import spox.opset.ai.onnx.v17 as op
+
+    decl = {f"s{i}": L.ty_from_json(t) for i, t in enumerate(case["state"])}
+    decl.update({f"x{i}": L.ty_from_json(t) for i, t in enumerate(case["scans"])})
+    args = make_args(decl)
+    ns = len(case["state"])
+
+    seen: list = []
+
+    def body(*a):
+        seen[:] = [L.ty_to_json(v.type) for v in a]
+        st, xs = list(a[:ns]), list(a[ns:])
+        return [op.identity(v) for v in st] + xs + [op.add(x, x) for x in xs] + st
+
+    rejected = None
+    outs: list = []
+    try:
+        with warnings.catch_warnings():
+            warnings.simplefilter("ignore")
+            outs = list(op.scan(list(args.values()), body=body, num_scan_inputs=len(case["scans"])))
+    except Exception as e:  # noqa: BLE001
+        rejected = f"{type(e).__name__}: {str(e)[:200]}"
+    st = observe(args, outs, rng, sizes, max_inst, extra_feeds=extra_feeds) if outs else \
+        {"rejected": True, "error": rejected, "runs": 0, "refused": 0, "checked": 0, "fails": []}
+    # The types prescribed for the body's arguments vs. what the ONNX Scan semantics passes in the first
+    # iteration: the initial state unchanged, and each scan input's slice 0 along axis 0 (numpy, no spox).
+    if len(seen) == len(args):
+        for feed in list(extra_feeds) + feeds_for(args, rng, sizes, max_inst):
+            for k, (name, ty) in enumerate(zip(args, seen)):
+                arr = feed[name]
+                if k >= ns:
+                    if arr.shape[0] == 0:
+                        continue
+                    arr = arr[0]
+                kind = L.conforms(L.val_of(arr), ty)
+                st["checked"] += 1
+                if kind and not any(f["key"].startswith("Scan:body-arg") for f in st["fails"]):
+                    what = "state" if k < ns else "scan-input slice"
+                    st["fails"].append({
+                        "key": f"Scan:body-arg:{kind}:unexplained",
+                        "what": f"Scan body argument {k} ({what}) is declared {ty} but the first iteration receives "
+                                f"{L.val_of(arr)['e']}{L.val_of(arr)['s']} for inputs {({n: list(a.shape) for n, a in feed.items()})}",
+                        "feed": feed_to_json(feed),
+                    })
+    return st
+
+
 # ----------------------------------------------------------------------------- hand-written witnesses
 def _w_linreg():
     import spox.opset.ai.onnx.ml.v3 as ml
